@@ -143,7 +143,9 @@ Print Assumptions detach_by_equality_refuted.
    __eq__ comparing prefix with prefix (AEq) or removal of the very object (AId)
    q:n goes.  The reference makes no claim
    here (an earlier attribute has the same local name), which is the only
-   attribute-related restriction of edit_refines_reference. *)
+   attribute-related restriction of edit_refines_reference (it concerns
+   prefixed names and remove(attribute) only: an unprefixed unset deletes by
+   position). *)
 Theorem unset_by_equality_refuted :
   attr_names (run AQuirk empty_store (two_attrs ++ [OUnset 0%N sqn])) 0%N = [sqn] /\
   attr_names (run AEq empty_store (two_attrs ++ [OUnset 0%N sqn])) 0%N = [snn] /\
@@ -151,6 +153,47 @@ Theorem unset_by_equality_refuted :
   ref_run empty_rstate (two_attrs ++ [OUnset 0%N sqn]) = None.
 Proof. exact unset_by_equality_refuted_l. Qed.
 Print Assumptions unset_by_equality_refuted.
+
+(* ------------------------------------------------------------------ *)
+(* The three departures recorded as KNOWN findings: the model keeps them, the  *)
+(* reference makes no claim there (ref_run = None), and the harness reports    *)
+(* directed instances under their keys.                                        *)
+(* ------------------------------------------------------------------ *)
+
+(* C19:replaceChild-content-is-earlier-sibling -- <r><x/><a/><b/></r>,
+   r.replaceChild(a, x): the code (and the model) give [b; x]; replacing a by x
+   is [x; b], which is what the SAME edit gives once x is detached first *)
+Theorem replaceChild_earlier_sibling_refuted :
+  kids_of (run AEq empty_store (xab ++ [OReplace 0%N 2%N [1]%N])) 0%N = [3; 1]%N /\
+  ref_run empty_rstate (xab ++ [OReplace 0%N 2%N [1]%N]) = None /\
+  kids_of (run AEq empty_store (xab ++ [ODetach 1%N; OReplace 0%N 2%N [1]%N])) 0%N = [1; 3]%N /\
+  option_map (fun rs => kids_ids (r_forest rs) 0%N)
+             (ref_run empty_rstate (xab ++ [ODetach 1%N; OReplace 0%N 2%N [1]%N])) = Some [1; 3]%N.
+Proof. exact replaceChild_earlier_sibling_refuted_l. Qed.
+Print Assumptions replaceChild_earlier_sibling_refuted.
+
+(* C19:append-does-not-detach -- <r><p/><q><c/></q></r>, p.append(c): c ends up listed
+   under p AND under q, pointing to p (MultiRef.replace_references relies on it:
+   see replace_references_shares below) *)
+Theorem append_does_not_detach_refuted :
+  let s := run AEq empty_store (pqc ++ [OAppend 1%N [3]%N]) in
+  kids_of s 1%N = [3]%N /\ kids_of s 2%N = [3]%N /\
+  option_map c_parent (get s 3%N) = Some (Some 1%N) /\
+  ref_run empty_rstate (pqc ++ [OAppend 1%N [3]%N]) = None /\
+  kids_of (run AEq empty_store (pqc ++ [ODetach 3%N; OAppend 1%N [3]%N])) 2%N = [].
+Proof. exact append_does_not_detach_refuted_l. Qed.
+Print Assumptions append_does_not_detach_refuted.
+
+(* C19:clone-loses-inherited-attribute-prefix -- <r xmlns:q="u"><a q:x="1"/></r>,
+   a.clone(): the original's attribute q:x is in namespace u, the clone's (a
+   parentless tree) in none.  clone_equal_independent therefore speaks of the
+   attributes as written (prefix, name, value), not of their namespaces. *)
+Theorem clone_loses_inherited_attribute_prefix_refuted :
+  let s := run AEq empty_store (rqa ++ [OClone 1%N]) in
+  first_attr_ns s 1%N = Some (Some [117]%N) /\ first_attr_ns s 2%N = Some None /\
+  option_map c_parent (get s 2%N) = Some None.
+Proof. exact clone_loses_inherited_attribute_prefix_refuted_l. Qed.
+Print Assumptions clone_loses_inherited_attribute_prefix_refuted.
 
 (* non-vacuity: a history with repeated sibling names using every kind of edit
    is inside the reference's domain, so the hypotheses above are satisfiable *)
@@ -165,7 +208,7 @@ Definition demo_history : list op :=
 
 Example history_nonvacuous :
   exists rs', ref_run empty_rstate demo_history = Some rs' /\
-              length (ids_f (r_forest rs')) = 7%nat.
+              length (ids_f (r_forest rs')) = 9%nat.
 Proof. vm_compute. eexists. split; reflexivity. Qed.
 
 Example clone_nonvacuous :
